@@ -184,12 +184,15 @@ func newCnode(c ccfg) (*cnode, error) {
 			conf.CIDRsAllowed = altNets(nets)
 		}
 	}
+	var appRing *ml.Keyring
 	if c.emptyRing {
 		kr, _ := ml.NewKeyring(nil, nil)
 		conf.Keyring = kr
 		keyring = kr
+		if c.secretKey {
+			appRing = kr // the application hands in a ring it will fill and rotate later, plus the first key as SecretKey
+		}
 	}
-	var appRing *ml.Keyring
 	if c.key != nil && c.secretKey {
 		conf.SecretKey = c.key
 		if c.ringToo {
@@ -214,6 +217,11 @@ func newCnode(c ccfg) (*cnode, error) {
 		keyring = conf.Keyring
 		if appRing != nil {
 			keyring = appRing // the handle the application supplied is the one it rotates
+		}
+		if c.emptyRing && keyring != nil {
+			for _, k := range c.keys {
+				keyring.AddKey(k)
+			}
 		}
 	}
 	return &cnode{m: m, tr: tr, del: del, ev: ev, cfg: c, kr: keyring}, nil
